@@ -204,6 +204,7 @@ func c11Run(r *ev.Run, st *Stack, g *rng.R, caseID string, cfg c11Cfg, prop stri
 		dst  int
 		done chan struct{}
 		ctx  context.Context
+		gid  int
 	}
 	var pmu sync.Mutex
 	var pend []pendingAsk
@@ -213,6 +214,7 @@ func c11Run(r *ev.Run, st *Stack, g *rng.R, caseID string, cfg c11Cfg, prop stri
 		awg.Add(1)
 		go func() {
 			defer awg.Done()
+			gid := gor.Self()
 			for i := 0; i < cfg.perAsker; i++ {
 				dst := lg.Intn(n)
 				if dst == asker {
@@ -274,7 +276,7 @@ func c11Run(r *ev.Run, st *Stack, g *rng.R, caseID string, cfg c11Cfg, prop stri
 				callStamp := stamp.Add(1)
 				done := make(chan struct{})
 				pmu.Lock()
-				pend = append(pend, pendingAsk{e.Seq, dst, done, ctx})
+				pend = append(pend, pendingAsk{e.Seq, dst, done, ctx, gid})
 				pmu.Unlock()
 				var nn int
 				var err error
@@ -357,21 +359,35 @@ func c11Run(r *ev.Run, st *Stack, g *rng.R, caseID string, cfg c11Cfg, prop stri
 	v, stacks := gor.WaitParked(adone, "main.c11asker", 15*time.Second, time.Second)
 	r.Eval(nAsks.Load())
 	if v == gor.Parked {
-		// promptness is judged only for asks none of whose handler invocations had begun
-		pmu.Lock()
-		w.mu.Lock()
-		judged := 0
-		for _, p := range pend {
-			select {
-			case <-p.done:
-			default:
-				if !w.begun[p.seq] && p.ctx.Err() != nil {
-					judged++
+		// Promptness is judged per call, not per goroutine (an asker makes many calls from one goroutine): a call counts when
+		// its context had ended, none of its handler invocations had begun, and it is still pending one second later, with
+		// its goroutine parked at the same library frames at both instants.
+		endedPending := func() map[uint64]int {
+			out := map[uint64]int{}
+			pmu.Lock()
+			w.mu.Lock()
+			for _, p := range pend {
+				select {
+				case <-p.done:
+				default:
+					if !w.begun[p.seq] && p.ctx.Err() != nil {
+						out[uint64(p.seq)] = p.gid
+					}
 				}
 			}
+			w.mu.Unlock()
+			pmu.Unlock()
+			return out
 		}
-		w.mu.Unlock()
-		pmu.Unlock()
+		p1, g1 := endedPending(), gor.ParkedIDs("main.c11asker")
+		time.Sleep(time.Second)
+		g2, p2 := gor.ParkedIDs("main.c11asker"), endedPending()
+		judged := 0
+		for seq, gid := range p1 {
+			if _, still := p2[seq]; still && g1[gid] != "" && g1[gid] == g2[gid] {
+				judged++
+			}
+		}
 		if judged > 0 && judgePrompt {
 			// what are the goroutines the parked calls wait for doing? (diagnosis only)
 			var others []string
